@@ -573,6 +573,10 @@ def excacc(ctx, pid):
                     and isinstance(nd.func.value, ast.Call) and ast.unparse(nd.func.value.func) == "super":
                 sup = nd
         if sup is None:
+            acc = [mn for mn, mt in cls.methods.items() if mt.is_property and any(
+                isinstance(x, ast.Attribute) and x.attr == "args" for x in ast.walk(mt.node))]
+            if acc:
+                bad.append(("accessor:%s.%s" % (cname, sorted(acc)[0]), init, "reads self.args, but the constructor never calls super().__init__(..) to fill them"))
             continue
         binds = ctx.E.bindings(init)
 
